@@ -47,8 +47,10 @@ def _decode_escape_sequence(  # noqa: PLR0911
     if ch == "0":
         return "\0", index
     if ch == "x":
-        # TODO: handle incomplete \x escape sequence
-        return chr(int(value[index + 1 : index + 3], 16)), index + 2
+        digits = value[index + 1 : index + 3]
+        if len(digits) != 2:  # noqa: PLR2004
+            raise PestGrammarSyntaxError("incomplete escape sequence", token=token)
+        return chr(_parse_hex_digits(digits, token)), index + 2
     if ch == "u":
         codepoint, index = _decode_hex_char(value, index, token)
         if codepoint > 0x10FFFF:  # noqa: PLR2004
@@ -67,9 +69,9 @@ def _decode_hex_char(value: str, index: int, token: Token) -> tuple[int, int]:
     # TODO: use a regular expression?
     index += 1  # move past 'u'
 
-    if value[index] != "{":
+    if value[index : index + 1] != "{":
         raise PestGrammarSyntaxError(
-            f"expected an opening brace, found {value[index]}",
+            f"expected an opening brace, found {value[index : index + 1]!r}",
             token=token,
         )
 
@@ -92,7 +94,7 @@ def _decode_hex_char(value: str, index: int, token: Token) -> tuple[int, int]:
 
 def _parse_hex_digits(digits: str, token: Token) -> int:
     codepoint = 0
-    for digit in digits.encode():
+    for digit in map(ord, digits):
         codepoint <<= 4
         if digit >= 48 and digit <= 57:
             codepoint |= digit - 48
@@ -102,7 +104,7 @@ def _parse_hex_digits(digits: str, token: Token) -> int:
             codepoint |= digit - 97 + 10
         else:
             raise PestGrammarSyntaxError(
-                "invalid \\u{XXXX} escape sequence",
+                "invalid hexadecimal digit in escape sequence",
                 token=token,
             )
     return codepoint
